@@ -530,7 +530,10 @@ static std::string json_of(const vj::Value& v) {
 static const unsigned kSlotSize = 32;
 static void* g_thunk_table[16];
 
+struct JumpTable { Label table; std::vector<Label> targets; };
+
 struct Gen {
+  std::vector<JumpTable> tables;
   x86::Compiler& cc;
   const vj::Value& scn;
   bool avx;
@@ -690,6 +693,33 @@ struct Gen {
         steps(st["body"]);
         chk(cc.bind(L), "bind");
       }
+      else if (op == "switch") {
+        // indirect jump through a table of label deltas, annotated with its targets (x86compiler.h, "Jump Tables")
+        size_t k = size_t(st["v"].i());
+        const TyInfo& t = T(k);
+        size_t n = st["cases"].arr.size();
+        x86::Gp idx = cc.new_gp_ptr(), tbl = cc.new_gp_ptr(), target = cc.new_gp_ptr();
+        if (t.size == 8) chk(cc.mov(idx, G(k)), "mov idx");
+        else if (t.size == 4) chk(cc.mov(idx.r32(), G(k)), "mov idx");
+        else chk(cc.movzx(idx.r32(), G(k)), "movzx idx");
+        chk(cc.and_(idx.r32(), imm(int64_t(n - 1))), "and idx");
+        JumpTable jt;
+        jt.table = cc.new_label();
+        Label L_end = cc.new_label();
+        JumpAnnotation* ann = cc.new_jump_annotation();
+        for (size_t i = 0; i < n; i++) { jt.targets.push_back(cc.new_label()); if (ann) chk(ann->add_label(jt.targets.back()), "add_label"); }
+        chk(cc.lea(tbl, x86::ptr(jt.table)), "lea table");
+        chk(cc.movsxd(target, x86::dword_ptr(tbl, idx, 2)), "movsxd");
+        chk(cc.add(target, tbl), "add target");
+        chk(cc.jmp(target, ann), "jmp annotated");
+        for (size_t i = 0; i < n; i++) {
+          chk(cc.bind(jt.targets[i]), "bind case");
+          steps(st["cases"].arr[i]);
+          if (i + 1 < n) chk(cc.jmp(L_end), "jmp end");
+        }
+        chk(cc.bind(L_end), "bind end");
+        tables.push_back(jt);
+      }
       else if (op == "stk") {
         // address of a fresh aligned stack area, masked with (align - 1): must be 0
         uint32_t size = uint32_t(st["size"].i()), align = uint32_t(st["align"].i());
@@ -766,6 +796,11 @@ struct Gen {
     long long rv = scn["retv"].i();
     if (rv > 0) chk(cc.ret(vregs[size_t(rv) - 1]), "ret"); else chk(cc.ret(), "ret");
     chk(cc.end_func(), "end_func");
+    // jump tables follow the function: relative int32_t offsets of `L_case - L_table`
+    for (auto& jt : tables) {
+      chk(cc.bind(jt.table), "bind table");
+      for (auto& tg : jt.targets) chk(cc.embed_label_delta(tg, jt.table, 4), "embed_label_delta");
+    }
     if (!before) for (size_t ci = 0; ci < csigs.size(); ci++) if (cfuncs[ci]) build_forwarder(ci);
     return f;
   }
